@@ -16,7 +16,12 @@ import (
 	banktypes "github.com/cosmos/cosmos-sdk/x/bank/types"
 	"github.com/ethereum/go-ethereum/common"
 
+	errorsmod "cosmossdk.io/errors"
+
+	haqqapp "github.com/haqq-network/haqq/app"
+	haqqante "github.com/haqq-network/haqq/app/ante"
 	cosmosante "github.com/haqq-network/haqq/app/ante/cosmos"
+	evmante "github.com/haqq-network/haqq/app/ante/evm"
 	haqqtypes "github.com/haqq-network/haqq/types"
 	evmtypes "github.com/haqq-network/haqq/x/evm/types"
 )
@@ -129,7 +134,7 @@ func c06Build(t *c06Tree) sdk.Msg {
 	case "E":
 		to := common.BytesToAddress(b)
 		c06Nonce++
-		return evmtypes.NewTx(&evmtypes.EvmTxArgs{ChainID: big.NewInt(11235), Nonce: c06Nonce, To: &to, Amount: big.NewInt(1), GasLimit: 21000, GasPrice: big.NewInt(1000000000)})
+		return evmtypes.NewTx(&evmtypes.EvmTxArgs{ChainID: big.NewInt(11235), Nonce: c06Nonce, To: &to, Amount: big.NewInt(1), GasLimit: 21000, GasFeeCap: big.NewInt(1000000000), GasTipCap: big.NewInt(1)})
 	case "V":
 		return sdkvesting.NewMsgCreateVestingAccount(a, b, sdk.NewCoins(sdk.NewInt64Coin("aISLM", 10)), time.Now().Unix()+1000, false)
 	case "O":
@@ -260,7 +265,10 @@ func c06Gen(r *rand.Rand, tier string) []Case {
 			}
 		}
 		chk(forest)
-		if ok {
+		// the SDK's MsgCreateVestingAccount is not registered in this chain's interface registry, so an encoded
+		// tx holding one is refused by the tx decoder; it only occurs in the decorator-level and direct-ante ops
+		hasV := strings.Contains(fmtList(forest), "V")
+		if ok && !hasV {
 			for k := 0; k < 3; k++ {
 				c = append(c, fmt.Sprintf("gate %s %s", pick(r, exts), fmtList(forest)))
 			}
@@ -272,9 +280,45 @@ func c06Gen(r *rand.Rand, tier string) []Case {
 			mixed := append([]*c06Tree{{kind: "E"}}, &c06Tree{kind: "O", k: 1})
 			c = append(c, fmt.Sprintf("gate %s %s", pick(r, []string{"e", "e", "-", "d", "w", "e,d"}), fmtList(mixed)))
 		}
+		if ok {
+			c = append(c, fmt.Sprintf("ante %s %s", pick(r, exts), fmtList(forest)), fmt.Sprintf("ante %s %s", pick(r, []string{"u1", "u2,e", "e,u1", "d,u1", "w,u1"}), fmtList(forest)))
+		}
 		out = append(out, c)
 	}
 	return out
+}
+
+var c06Direct sdk.AnteHandler
+
+// c06DirectAnte composes the ante handler exactly as app.go does (the facts extractor pins that wiring), so that
+// it can be called on a tx object without going through the tx decoder.
+func c06DirectAnte() sdk.AnteHandler {
+	if c06Direct != nil {
+		return c06Direct
+	}
+	nw, _ := fixture()
+	a := nw.App
+	options := haqqante.HandlerOptions{
+		Cdc:                    a.AppCodec(),
+		AccountKeeper:          a.AccountKeeper,
+		BankKeeper:             a.BankKeeper,
+		ExtensionOptionChecker: haqqtypes.HasDynamicFeeExtensionOption,
+		EvmKeeper:              a.EvmKeeper,
+		StakingKeeper:          a.StakingKeeper,
+		FeegrantKeeper:         a.FeeGrantKeeper,
+		DistributionKeeper:     a.DistrKeeper,
+		IBCKeeper:              a.IBCKeeper,
+		FeeMarketKeeper:        a.FeeMarketKeeper,
+		SignModeHandler:        a.GetTxConfig().SignModeHandler(),
+		SigGasConsumer:         haqqante.SigVerificationGasConsumer,
+		MaxTxGasWanted:         0,
+		TxFeeChecker:           evmante.NewDynamicFeeChecker(a.EvmKeeper),
+	}
+	if err := options.Validate(); err != nil {
+		panic(err)
+	}
+	c06Direct = haqqapp.NewHaqqAnteHandlerDecorator(*a.StakingKeeper.Keeper, haqqante.NewAnteHandler(options))
+	return c06Direct
 }
 
 func c06HasBlockedBelowExec(l []*c06Tree, below bool) bool {
@@ -303,6 +347,7 @@ func c06Exec(c Case) (outs []string, fails []Failure, tags []string) {
 	lim := cosmosante.NewAuthzLimiterDecorator(sdk.MsgTypeURL(&evmtypes.MsgEthereumTx{}), sdk.MsgTypeURL(&sdkvesting.MsgCreateVestingAccount{}))
 	next := func(ctx sdk.Context, _ sdk.Tx, _ bool) (sdk.Context, error) { return ctx, nil }
 	txCfg := nw.App.GetTxConfig()
+	direct := c06DirectAnte()
 	for i, line := range c {
 		f := strings.Fields(line)
 		out := "bad-op"
@@ -345,7 +390,7 @@ func c06Exec(c Case) (outs []string, fails []Failure, tags []string) {
 				if err != nil {
 					out = "reject"
 				}
-			case "gate":
+			case "gate", "ante":
 				forest := c06Msgs(f[2])
 				var msgs []sdk.Msg
 				for _, t := range forest {
@@ -385,11 +430,23 @@ func c06Exec(c Case) (outs []string, fails []Failure, tags []string) {
 				} else {
 					panic("tx builder without extension options")
 				}
-				bz, err := txCfg.TxEncoder()(b.GetTx())
-				if err != nil {
-					panic(err)
+				var res abci.ResponseDeliverTx
+				if f[0] == "gate" {
+					bz, err := txCfg.TxEncoder()(b.GetTx())
+					if err != nil {
+						panic(err)
+					}
+					res = nw.App.BaseApp.DeliverTx(abci.RequestDeliverTx{Tx: bz})
+				} else {
+					// the composed ante handler called directly on the (undecoded) tx object: reaches the router's own
+					// handling of an unknown first option
+					cctx, _ := ctx.CacheContext()
+					_, err := direct(cctx.WithIsCheckTx(false), b.GetTx(), false)
+					if err != nil {
+						space, code, lg := errorsmod.ABCIInfo(err, true)
+						res = abci.ResponseDeliverTx{Codespace: space, Code: code, Log: lg}
+					}
 				}
-				res := nw.App.BaseApp.DeliverTx(abci.RequestDeliverTx{Tx: bz})
 				log := res.Log
 				switch {
 				case res.Code == 0:
@@ -418,7 +475,9 @@ func c06Exec(c Case) (outs []string, fails []Failure, tags []string) {
 				if out == "executed" || out == "later" {
 					what := ""
 					switch {
-					case unknown:
+					case unknown && !strings.HasPrefix(f[1], "w"):
+						// (on the EIP-712 route the option count is tested by the signature verifier, which an unsigned
+						// probe cannot reach; that clause is covered by the regenerated fact eip712VerifierRequiresOneExt)
 						what = "a tx carrying an unknown extension option was not rejected by the gate"
 					case c06HasBlockedBelowExec(forest, false) && !strings.HasPrefix(f[1], "e"):
 						what = "a tx with a blocked nested message / grant passed the gate"
